@@ -36,7 +36,9 @@ RULE = (
     "exactly its own records); a path holding a longer file of the same cell, or other data, written again (no stale tail: the "
     "whole file is consumed by the independent decompressor frame by frame, only the new records come back); compound "
     "names x.csv|json|jsonl|avro|records.json|tar.<codec> given as plain paths (last extension decides: a <codec>'d record "
-    "stream) (stream: observe.normalise(obs) equality; avro: the C19 comparison, "
+    "stream); the REAL stdin of a python subprocess (pipe and redirected regular file) x codec x container x {program did "
+    "nothing / sys.stdin.buffer.peek(1) / consumed a leading marker line with sys.stdin.buffer.readline()} before "
+    "RecordReader('-') or RecordReader(): exactly the written records (stream: observe.normalise(obs) equality; avro: the C19 comparison, "
     "floats to single precision, timestamps as instants).  Plus JSON / JSON lines / CSV chosen by extension, and junk inputs "
     "(empty, text, record repr text, random bytes, each codec around junk, each codec magic followed by junk, Avro magic "
     "followed by junk; non-stream input that contains the stream magic text at offset 0-5/7/10 instead of the header frame, "
@@ -94,6 +96,10 @@ JUNK_KINDS = ("empty", "text", "record-repr", "random", "random-long", "nul", "a
 BOGUS_TAILS = ("text", "frames", "pad+frames")
 BOGUS_KINDS = tuple("bogus-hdr@%d+%s" % (k, t) for k in (0, 1, 2, 3, 4, 5, 7, 10) for t in BOGUS_TAILS if not (k > 5 and t == "pad+frames"))
 JUNK_KINDS += BOGUS_KINDS + tuple("%s(bogus-hdr@%d+%s)" % (c, k, t) for c in ("gz", "bz2", "lz4", "zst") for k in (0, 2, 5) for t in BOGUS_TAILS)
+# what the reading program did with its standard input before it created the reader: nothing; looked at it without consuming
+# (the "is anything piped in?" idiom); consumed a leading text line itself with a buffered readline()
+STDIN_TOUCH = ("untouched", "peek", "line")
+MARKER_LINE = b"#records follow\n"
 COMPOUND_INNER = (".csv", ".json", ".jsonl", ".avro", ".records.json", ".tar")  # x<inner>.<codec>: the LAST extension decides
 JUNK_VIAS = ("bytesio", "buffered", "raw", "neutral", "neutral-avro", "ext", "stdin")
 
@@ -169,6 +175,14 @@ def generate(ctx):
                         yield {"k": "overwrite", "codec": codec, "container": container, "prior": prior,
                                "s": subseed("c11", ctx.seed, "overwrite", container, prior, rep)}
                     idx += 1
+        for codec in CODECS:
+            for container in CONTAINERS:
+                for touch in STDIN_TOUCH:
+                    for how in ("pipe", "file"):
+                        if ctx.mine(idx):
+                            yield {"k": "stdin-touch", "codec": codec, "container": container, "touch": touch, "stdin": how,
+                                   "s": subseed("c11", ctx.seed, "stdin-touch", container, touch, how, rep)}
+                        idx += 1
         for inner in COMPOUND_INNER:
             for codec in CODECS[1:]:
                 if ctx.mine(idx):
@@ -360,6 +374,8 @@ def execute(ctx, case):
         return execute_overwrite(ctx, case)
     if case["k"] == "compound":
         return execute_compound(ctx, case)
+    if case["k"] == "stdin-touch":
+        return execute_stdin_touch(ctx, case)
     return execute_text_ext(ctx, case)
 
 
@@ -581,6 +597,91 @@ def execute_overwrite(ctx, case):
     ctx.event("overwrites")
     _rm(path)
     ctx.nontrivial("overwrite", codec, container, prior, case["s"])
+
+
+TOUCH_WORKER = (
+    "import sys, warnings\n"
+    "warnings.simplefilter('ignore')\n"
+    "from flow.record import RecordReader, RecordWriter\n"
+    "mode, src, out = sys.argv[1:4]\n"
+    "if mode == 'peek':\n"
+    "    if not sys.stdin.buffer.peek(1):\n"
+    "        sys.exit('no input')\n"
+    "elif mode == 'line':\n"
+    "    line = sys.stdin.buffer.readline()\n"
+    "    assert line == b'#records follow\\n', line\n"
+    "rd = RecordReader() if src == 'NONE' else RecordReader(src)\n"
+    "w = RecordWriter(out)\n"
+    "n = 0\n"
+    "for r in rd:\n"
+    "    w.write(r); n += 1\n"
+    "w.flush(); w.close()\n"
+    "sys.stdout.write('%s %d' % (type(rd).__name__, n))\n"
+)
+
+
+def execute_stdin_touch(ctx, case):
+    """The real standard input of a python subprocess (a pipe, or redirected from a regular file) carries the file; the
+    program may have looked at / read a leading line from sys.stdin.buffer before it creates RecordReader('-')."""
+    from flow.record import RecordReader, RecordWriter
+
+    codec, container, touch, how = case["codec"], case["container"], case["touch"], case["stdin"]
+    ctx.state["stdin_touch_cases"] = ctx.state.get("stdin_touch_cases", 0) + 1
+    rng = random.Random(case["s"])
+    records = sized_records(container, case["s"] + 3, rng.choice([3, 40, 400] if ctx.quick else [40, 400, 5000]))
+    ctx.ev()
+    before = [observe.normalise(observe.obs(r)) for r in records]
+    path, url = cell_path(ctx, codec, container, "st")
+    w = RecordWriter(url)
+    try:
+        for r in records:
+            w.write(r)
+    finally:
+        w.flush()
+        w.close()
+    with open(path, "rb") as f:
+        data = f.read()
+    _rm(path)
+    if touch == "line":
+        data = MARKER_LINE + data
+    src = ("-", "NONE")[rng.randrange(2)]
+    out = tmp_name(ctx, "touch-out", ".records")
+    argv = [sys.executable, "-c", TOUCH_WORKER, touch, src, out]
+    detail = {"codec": codec, "container": container, "stdin": how, "before_reader": touch, "source": src, "records": len(records),
+              "stdin_bytes": len(data)}
+    stdin_path = None
+    try:
+        if how == "file":
+            stdin_path = tmp_name(ctx, "stdin", ".bin")
+            with open(stdin_path, "wb") as f:
+                f.write(data)
+            with open(stdin_path, "rb") as f:
+                p = subprocess.run(argv, stdin=f, stdout=subprocess.PIPE, stderr=subprocess.PIPE, timeout=600, env=ctx.state["env"], cwd=ctx.state["tmp"])
+        else:
+            p = subprocess.run(argv, input=data, stdout=subprocess.PIPE, stderr=subprocess.PIPE, timeout=600, env=ctx.state["env"], cwd=ctx.state["tmp"])
+    except subprocess.TimeoutExpired:
+        ctx.require(False, "a subprocess reading its real stdin did not finish within 600 s")
+        return
+    finally:
+        if stdin_path:
+            _rm(stdin_path)
+    ctx.event("stdin_touch:%s/%s" % (touch, how))
+    what = "real stdin (%s), program %s before RecordReader" % (how, {"untouched": "did nothing", "peek": "peeked at sys.stdin.buffer",
+                                                                       "line": "read a leading line from sys.stdin.buffer"}[touch])
+    stdout, stderr = p.stdout.decode("utf-8", "replace"), p.stderr.decode("utf-8", "replace")
+    d2 = dict(detail, returncode=p.returncode, stderr=stderr[-600:])
+    if p.returncode != 0 or not os.path.exists(out):
+        ctx.violation(None, "%s: reading failed" % what, detail=d2)
+    else:
+        if stdout.split(" ")[0] != ("AvroReader" if container == "avro" else "StreamReader"):
+            ctx.violation(None, "%s: RecordReader returned %s" % (what, stdout.split(" ")[0]), detail=d2)
+        rd, got, err = drain(lambda: RecordReader(out))
+        if err is not None:
+            ctx.violation(None, "%s: the stream the subprocess wrote cannot be read" % what, detail=dict(d2, exception=repr(err)[:300]))
+        elif compare(ctx, container, records, before, got, what, d2):
+            ctx.cell("stdin-touch", codec, container, touch, how)
+    _rm(out)
+    ctx.nontrivial("stdin-touch", codec, container, touch, how, case["s"])
 
 
 def execute_compound(ctx, case):
@@ -1062,10 +1163,17 @@ def finish(ctx):
         ctx.note("interleave_cells_expected", len(CODECS) * len(CONTAINERS) * 4)
         ctx.note("overwrite_cells_expected", len(CODECS) * len(CONTAINERS) * 2)
         ctx.note("compound_cells_expected", len(COMPOUND_INNER) * (len(CODECS) - 1))
+        ctx.note("stdin_touch_cells_expected", len(CODECS) * len(CONTAINERS) * len(STDIN_TOUCH) * 2)
         ctx.note("cli_tools", {k: (v or "absent") for k, v in ctx.state["clis"].items()})
         ctx.note("rdump_argv0", ctx.state["rdump"])
     if ctx.evaluations:
         for q in ANCHORS:
             ctx.require(ctx.reach.get(q, 0) > 0, "anchor %s was never entered" % q)
+        ran = sum(v for k, v in ctx.events.items() if k.startswith("stdin_touch:"))
+        ctx.require(ran == ctx.state.get("stdin_touch_cases", 0), "a real-stdin subprocess case did not run to completion")
+        if ctx.nshards == 1:
+            for touch in STDIN_TOUCH:
+                for how in ("pipe", "file"):
+                    ctx.require(ctx.events.get("stdin_touch:%s/%s" % (touch, how), 0) > 0, "real-stdin variant %s/%s never ran" % (touch, how))
         if ctx.events.get("files_written", 0):
             ctx.require(ctx.events.get("records_read", 0) > 0, "no record was read back through any naming")
